@@ -40,6 +40,7 @@ class Lower:
         self.cls = None
         self.entry = None
         self.subst = {}      # lambda accumulator parameter -> variable
+        self.bools = {}      # bool locals -> the condition they name
 
     def bad(self, msg, node):
         raise mc.Unsupported('encode_dispatch_data (sizes): %s: %s' % (msg, mc.show(node)))
@@ -77,6 +78,11 @@ class Lower:
     def c(self, x):
         if x[0] == 'un' and x[1] == '!':
             return '(CNot_ %s)' % self.c(x[2])
+        if x[0] == 'id' and x[1] in self.bools:
+            return self.bools[x[1]]
+        if x[0] == 'bin' and x[1] in ('<=', '>='):
+            a, b = self.e(x[2]), self.e(x[3])
+            return '(CNot_ (CGt %s %s))' % ((a, b) if x[1] == '<=' else (b, a))
         if x[0] == 'bin' and x[1] in ('>', '<', '!=', '=='):
             a, b = self.e(x[2]), self.e(x[3])
             if x[1] == '>':
@@ -87,7 +93,18 @@ class Lower:
         self.bad('condition not in the subset', x)
 
     def seq(self, stmts):
-        out = [self.s(t) for t in nonempty(stmts)]
+        stmts = nonempty(stmts)
+        # guard form inside a loop body:  if (C) continue; REST   ==   if (!C) { REST }
+        for i, t in enumerate(stmts):
+            if t[0] == 'if' and not t[1] and t[4] is None and nonempty(t[3][1] if t[3][0] == 'block' else [t[3]]) == [('continue',)] and (self.meth or self.cls or self.entry):
+                head = [self.s(u) for u in stmts[:i]]
+                rest = self.seq(stmts[i + 1:])
+                out = [u for u in head if u != 'ESkip'] + ['(EIf (CNot_ %s)\n  %s\n  ESkip)' % (self.c(t[2]), rest)]
+                r = out[-1]
+                for u in reversed(out[:-1]):
+                    r = '(ESeq %s\n  %s)' % (u, r)
+                return r
+        out = [self.s(t) for t in stmts]
         out = [t for t in out if t != 'ESkip']
         if not out:
             return 'ESkip'
@@ -134,6 +151,9 @@ class Lower:
             return self.seq(st[1])
         if k == 'decl':
             out = []
+            if len(st[2]) == 1 and st[2][0][1] is not None and st[1].replace('const', '').strip() == 'bool':
+                self.bools[st[2][0][0]] = self.c(st[2][0][1])
+                return 'ESkip'
             for name, init in st[2]:
                 if init is None:
                     self.bad('declaration without initialiser', st)
